@@ -326,7 +326,7 @@ def run(ctx):
                     [step_text(alpha, c) for c in o["played"][:10]], o["cancel"], o["drained"],
                     "; ".join(CODES[c] for c in codes)), json.dumps(o)[:700]))
             ctx.cov["traces_validated_against_impl"] += len(part)
-    if ctx.broken and not ctx.findings and os.path.exists(os.path.join(verif.ROOT, "harness", "bin", "c20")):
+    if ctx.broken and not ctx.findings and os.path.exists(os.path.join(verif.HBIN, "c20")):
         # a proof or the tie broke: look harder for a concrete failing input on the real code
         ok, _ = ctx.harness_run("c20", ["-out", "search.jsonl", "-seed", ctx.seed + 7, "-n", 8000, "-exh", 4, "-exhc", 3,
                                         "-pairs", -1, "-bursts", 40], timeout=1500)
